@@ -434,8 +434,61 @@ func c09R3(c *Ctx) {
 				dangSources = append(dangSources, v)
 			}
 		}
-		judge := func(dang ssa.Value, what string, withReturns bool, cnt *int) {
+		// the work list of the host: the slices whose elements are handed to the delete step / the cascade helpers /
+		// the referrers lookup; an append to anything else only accumulates (followUps = append(followUps, referrers...))
+		queueRoots := map[ssa.Value]bool{}
+		for _, call := range Calls(host, func(string) bool { return true }) {
+			g := StaticCallee(call)
+			consumer := CalleeName(call) == c09nReferrers || (g != nil && g == h.deleteOne)
+			for _, cf := range h.cascade {
+				consumer = consumer || (g != nil && g == cf)
+			}
+			if !consumer {
+				continue
+			}
+			for _, a := range call.Common().Args {
+				for _, rt := range Roots(c09CellOrValue(a)) {
+					if ld, ok := rt.(*ssa.UnOp); ok && ld.Op == token.MUL {
+						if ia, ok := ld.X.(*ssa.IndexAddr); ok {
+							for _, q := range Roots(ia.X) {
+								queueRoots[q] = true
+							}
+							queueRoots[ia.X] = true
+						}
+					}
+				}
+			}
+		}
+		var isQueue func(v ssa.Value, depth int) bool
+		isQueue = func(v ssa.Value, depth int) bool {
+			if v == nil || depth > 6 {
+				return false
+			}
+			if queueRoots[v] {
+				return true
+			}
+			switch u := v.(type) {
+			case *ssa.Slice:
+				return isQueue(u.X, depth+1)
+			case *ssa.Phi:
+				for _, e := range u.Edges {
+					if e != v && isQueue(e, depth+1) {
+						return true
+					}
+				}
+			case *ssa.Call:
+				if CalleeName(u) == "builtin:append" {
+					return isQueue(u.Call.Args[0], depth+1)
+				}
+			}
+			return false
+		}
+		_, gcOff := BoolTests(host, c08StoreFieldLoads(host, h.store, "AutoGC"))
+		derived := map[string]bool{}
+		var judge func(dang ssa.Value, what string, withReturns bool, cnt *int)
+		judge = func(dang ssa.Value, what string, withReturns bool, cnt *int) {
 			noun := ifelse(what == "referrers", "referrer of the deleted node", "dangling node")
+			nouns := ifelse(what == "referrers", "referrers of the deleted node", "dangling nodes")
 			kAuto, kUntagged, kRaw := "|"+what+"-only-under-AutoGC", "|"+what+"-only-if-untagged", "|"+what+"-enqueued-unfiltered"
 			if what == "referrers" {
 				// one obligation for the followers of the deleted node: they enter the work list only when untagged
@@ -452,23 +505,47 @@ func c09R3(c *Ctx) {
 					*cnt++
 					usesInline = true
 					ok := c09GuardedUp(c.P, at, nil, autoGCEdges, 2)
-					c.Check(R3, dn+kAuto, at.Pos(), ok, ifelse(ok, "a "+noun+" is enqueued only on the s.AutoGC edge", noun+"s are deleted although AutoGC is off"))
+					c.Check(R3, dn+kAuto, at.Pos(), ok, ifelse(ok, "a "+noun+" is enqueued only on the s.AutoGC edge", nouns+" are deleted although AutoGC is off"))
 					ok = c09PredIsNot(keep, h.isTagged)
-					c.Check(R3, dn+kUntagged, at.Pos(), ok, ifelse(ok, "only the "+noun+"s for which !isTagged(d) holds pass the filter before they are enqueued", "the "+noun+"s are filtered with a predicate that is not the negated isTagged test: a tagged manifest can be deleted"))
+					c.Check(R3, dn+kUntagged, at.Pos(), ok, ifelse(ok, "only the "+nouns+" for which !isTagged(d) holds pass the filter before they are enqueued", "the "+nouns+" are filtered with a predicate that is not the negated isTagged test: a tagged manifest can be deleted"))
 					continue
 				}
 				if df := c09DeleteFuncOf(whole, dAliases); df != nil {
 					*cnt++
 					usesInline = true
 					ok := c09GuardedUp(c.P, at, nil, autoGCEdges, 2)
-					c.Check(R3, dn+kAuto, at.Pos(), ok, ifelse(ok, "a "+noun+" is enqueued only on the s.AutoGC edge", noun+"s are deleted although AutoGC is off"))
+					c.Check(R3, dn+kAuto, at.Pos(), ok, ifelse(ok, "a "+noun+" is enqueued only on the s.AutoGC edge", nouns+" are deleted although AutoGC is off"))
 					ok = c09PredIs(df.Call.Args[1], h.isTagged)
-					c.Check(R3, dn+kUntagged, at.Pos(), ok, ifelse(ok, "the tagged "+noun+"s are filtered out with slices.DeleteFunc(…, isTagged) before they are enqueued", "the "+noun+"s are filtered with a predicate that is not the isTagged test: a tagged manifest can be deleted"))
+					c.Check(R3, dn+kUntagged, at.Pos(), ok, ifelse(ok, "the tagged "+nouns+" are filtered out with slices.DeleteFunc(…, isTagged) before they are enqueued", "the "+nouns+" are filtered with a predicate that is not the isTagged test: a tagged manifest can be deleted"))
 					continue
 				}
 				if dAliases[whole] || dAliases[c09Resolved(whole)] {
-					c.Violation(R3, dn+kRaw, at.Pos(), "the "+noun+"s are enqueued as a whole, without the !isTagged filter: tagged manifests would be deleted")
+					// appended to an accumulator that is not the work list: the accumulated list is judged where it goes
+					if ap, isAp := at.(*ssa.Call); isAp && CalleeName(ap) == "builtin:append" && !isQueue(ap.Call.Args[0], 0) {
+						if k := what + "|" + ap.Name(); !derived[k] {
+							derived[k] = true
+							judge(ap, what, withReturns, cnt)
+						}
+						continue
+					}
+					// with AutoGC off no referrers were looked up (referrers-only-under-AutoGC): the list is empty there
+					if what == "referrers" && len(gcOff) > 0 && c09Guarded(at, gcOff) {
+						continue
+					}
+					c.Violation(R3, dn+kRaw, at.Pos(), "the "+nouns+" are enqueued as a whole, without the !isTagged filter: tagged manifests would be deleted")
 					*cnt++
+				}
+			}
+			for _, ap := range CallsTo(host, "builtin:append") {
+				if apc, isCall := ap.(*ssa.Call); isCall && !isQueue(apc.Call.Args[0], 0) {
+					grows := false
+					for _, rt := range Roots(apc.Call.Args[0]) {
+						grows = grows || dAliases[rt]
+					}
+					if k := what + "|" + apc.Name(); grows && !derived[k] {
+						derived[k] = true
+						judge(apc, what, withReturns, cnt) // the list goes on growing: same elements, judged further on
+					}
 				}
 			}
 			for _, ap := range CallsTo(host, "builtin:append") {
@@ -479,7 +556,7 @@ func c09R3(c *Ctx) {
 					}
 					*cnt++
 					ok := c09GuardedUp(c.P, ap.(ssa.Instruction), nil, autoGCEdges, 2)
-					c.Check(R3, dn+kAuto, ap.Pos(), ok, ifelse(ok, "a "+noun+" is enqueued only on the s.AutoGC edge", noun+"s are deleted although AutoGC is off"))
+					c.Check(R3, dn+kAuto, ap.Pos(), ok, ifelse(ok, "a "+noun+" is enqueued only on the s.AutoGC edge", nouns+" are deleted although AutoGC is off"))
 					var notTagged []Edge
 					if h.isTagged != nil {
 						_, notTagged, _ = CallTests(host, fnFullName(h.isTagged), func(x *ssa.Call) bool { return c09SameKey(x.Call.Args[len(x.Call.Args)-1], e) })
